@@ -337,6 +337,18 @@ def generate(rng, profile):
             i, j, s_ = rng.randrange(len(g)), rng.randrange(len(g[0])), rng.randrange(len(g[0][0]))
             if g[i][j][s_] is not None:
                 g[i][j][s_] = float("inf") if rng.random() < 0.5 else float("-inf")
+    if p.get("p_obs_differ", 0.0) and n_parties > 1 and rng.random() < p["p_obs_differ"]:
+        # files that disagree about an observation (another quality control, another station feed): the value
+        # of one file is far away (typically outside an -obsrange) or just next to the others'.  Only worlds of
+        # checks whose oracle is the fresh-dataset reference use this (C18); the C01 oracles assume tags.
+        holders = [q for q in parties if "obs" in q["fields"]]
+        if len(holders) > 1:
+            q = rng.choice(holders)
+            g = q["fields"]["obs"]
+            for _ in range(rng.randint(1, 3)):
+                i, j, s_ = rng.randrange(len(g)), rng.randrange(len(g[0])), rng.randrange(len(g[0][0]))
+                if g[i][j][s_] is not None and abs(g[i][j][s_]) < 1e6:
+                    g[i][j][s_] = float(g[i][j][s_] + rng.choice([5000.0, -5000.0, 0.5, 64.0]))
     if n_parties == 1 and rng.random() < p.get("p_no_id", 0.0):
         # a single text file without a location/id column: verif numbers the stations itself
         parties[0]["format"] = "text"
